@@ -198,6 +198,9 @@ where
     #[pin]
     inner: InnerCheckoutConnecting<T, P, B>,
     connection: Option<P::Connection>,
+    /// Did this checkout mark its connection attempt as in progress in the pool?
+    /// Only then is it the one to clear that mark again.
+    owns_attempt: bool,
     meta: ConnectorMeta,
     #[cfg(debug_assertions)]
     id: CheckoutId,
@@ -240,6 +243,7 @@ where
                     waiter: Waiting::NoPool,
                     inner: InnerCheckoutConnecting::ConnectingDelayed(connector.take().unwrap()),
                     connection: None,
+                    owns_attempt: *this.owns_attempt,
                     meta: ConnectorMeta::new(), // New meta to avoid holding spans in the spawned task
                     #[cfg(debug_assertions)]
                     id: *this.id,
@@ -277,10 +281,18 @@ where
             waiter: Waiting::NoPool,
             inner: InnerCheckoutConnecting::Connecting(connector),
             connection: None,
+            owns_attempt: false,
             meta: ConnectorMeta::new(),
             #[cfg(debug_assertions)]
             id,
         }
+    }
+
+    /// Mark this checkout as the one which registered its connection attempt
+    /// as in progress with the pool.
+    pub(super) fn owning_attempt(mut self, owns_attempt: bool) -> Self {
+        self.owns_attempt = owns_attempt;
+        self
     }
 
     pub(super) fn new(
@@ -306,6 +318,7 @@ where
                 waiter: Waiting::Idle(waiter),
                 inner: InnerCheckoutConnecting::Connected,
                 connection,
+                owns_attempt: false,
                 meta,
                 #[cfg(debug_assertions)]
                 id,
@@ -325,6 +338,7 @@ where
                 waiter: Waiting::Idle(waiter),
                 inner,
                 connection,
+                owns_attempt: false,
                 meta,
                 #[cfg(debug_assertions)]
                 id,
@@ -337,6 +351,7 @@ where
                 waiter: Waiting::Connecting(waiter),
                 inner: InnerCheckoutConnecting::Waiting,
                 connection,
+                owns_attempt: false,
                 meta,
                 #[cfg(debug_assertions)]
                 id,
@@ -531,9 +546,12 @@ where
                     tracing::error!(error=%err, "error during delayed drop");
                 }
             });
-        } else if let Some(mut pool) = self.pool.lock() {
-            // Connection is only cancled when no delayed drop occurs.
-            pool.cancel_connection(self.token);
+        } else if self.owns_attempt {
+            // Connection is only cancled when no delayed drop occurs, and only
+            // by the checkout which marked it as in progress.
+            if let Some(mut pool) = self.pool.lock() {
+                pool.cancel_connection(self.token);
+            }
         }
     }
 }
